@@ -34,6 +34,7 @@ ASSUMPTIONS = ['ids, category names and strings are Unicode scalar values withou
                'HDF5 link-name rules for category and group-metadata names (non-empty, not ".", one path component)']
 
 _STATE = {}
+_GEN2 = {}        # case hash -> model input for the table that was loaded and is written again
 
 
 def _build(case):
@@ -55,6 +56,28 @@ def _load(fn):
         return U.loaded_snapshot(fn())
     except Exception as e:
         return ['err', tables.err_code(e), type(e).__name__]
+
+
+def _second_generation(case, path):
+    """history: the table loaded from the file is written again (same arguments) and loaded again"""
+    import biom
+    try:
+        t1 = biom.load_table(path)
+        _GEN2[jhash(case)] = U.enc_table_state(t1)
+    except Exception as e:
+        _GEN2[jhash(case)] = None
+        return {'load': ['err', tables.err_code(e)]}
+    path2 = U.tmpfile()
+    try:
+        try:
+            U.write_table(t1, case, path2)
+        except Exception as e:
+            return {'write': ['err', tables.err_code(e)]}
+        tree, comp = U.raw_tree(path2)
+        return {'write': 'ok', 'file': tree, 'loaded': _norm_err(_load(lambda: biom.load_table(path2)))}
+    finally:
+        if os.path.exists(path2):
+            os.remove(path2)
 
 
 def run_impl(case):
@@ -83,6 +106,8 @@ def run_impl(case):
         tree, comp = U.raw_tree(path)
         out = {'write': 'ok', 'file': tree, 'compression': comp, 'in_domain': U.in_domain(case)}
         out['load_table'] = _load(lambda: biom.load_table(path))
+        if case.get('gen2'):
+            out['gen2'] = _second_generation(case, path)
 
         def via_handle():
             with biom_open(path) as fp:
@@ -105,7 +130,13 @@ def encode(case):
         return [1, case['bytes']]
     if kind == 'escape':
         return [2, U.cps(case['name'])]
-    return [0, U.enc_state(case, _state(case)), U.cps(case['genby']), U.cps(case['date'])]
+    tree = [0, U.enc_state(case, _state(case)), U.cps(case['genby']), U.cps(case['date'])]
+    if case.get('gen2'):
+        if jhash(case) not in _GEN2:
+            run_impl(case)
+        if _GEN2.get(jhash(case)) is not None:
+            tree.append([_GEN2[jhash(case)]])
+    return tree
 
 
 def decode(tree, case):
@@ -119,10 +150,15 @@ def decode(tree, case):
         return {'write': ['err', w[1]]}
     ld = lambda t: ['err', t[1], None] if t[0] == -1 else U.dec_loaded(t[1])
     samp, obs = ld(tree[1]), ld(tree[2])
-    return {'write': 'ok', 'file': U.dec_h5(w[1]), 'compression': ['gzip' if case['compress'] else 'none'],
+    extra = {}
+    if case.get('gen2') and len(tree) > 4 and tree[4]:
+        w2, l2, _dom2 = tree[4][0]
+        extra['gen2'] = {'write': ['err', w2[1]]} if w2[0] == -1 else \
+            {'write': 'ok', 'file': U.dec_h5(w2[1]), 'loaded': _norm_err(ld(l2))}
+    return dict(extra, **{'write': 'ok', 'file': U.dec_h5(w[1]), 'compression': ['gzip' if case['compress'] else 'none'],
             'in_domain': bool(tree[3]),
             'load_table': samp, 'parse_table': samp,
-            'from_hdf5': obs if case.get('h5_axis', 'sample') == 'observation' else samp}
+            'from_hdf5': obs if case.get('h5_axis', 'sample') == 'observation' else samp})
 
 
 def _norm_err(x):
@@ -177,6 +213,19 @@ def oracle(case, obs, want=None):
             if got.get(f) != want.get(f):
                 fails.append('%s: %s differ after the round trip: wrote %s, loaded %s'
                              % (path, label, str(want.get(f))[:160], str(got.get(f))[:160]))
+    if case.get('gen2'):
+        g2 = obs.get('gen2') or {}
+        if g2.get('write') != 'ok':
+            fails.append('second generation: writing the table that was loaded from the file failed: %s' % (g2.get('write') or g2.get('load'),))
+        elif not isinstance(g2.get('loaded'), dict):
+            fails.append('second generation: the re-written file could not be loaded: %s' % (g2.get('loaded'),))
+        else:
+            for f, label in FIELDS:
+                if g2['loaded'].get(f) != want.get(f):
+                    fails.append('second generation (write, load, write, load): %s differ from the original: wrote %s, loaded %s'
+                                 % (label, str(want.get(f))[:160], str(g2['loaded'].get(f))[:160]))
+                elif isinstance(obs.get('load_table'), dict) and g2['loaded'].get(f) != obs['load_table'].get(f):
+                    fails.append('second generation: %s differ from the first generation' % label)
     exp = ['gzip' if case['compress'] else 'none']
     if obs.get('compression') != exp:
         fails.append('dataset compression is %s, requested %s' % (obs.get('compression'), exp))
@@ -223,6 +272,8 @@ def classify(case):
     if case.get('kind', 'table') == 'table':
         tags.append(U.layout_tag(_state(case)))
         tags.append('h5_axis:%s' % case.get('h5_axis'))
+        tags.append('history:%s' % ('write-load-write-load' if case.get('gen2') else 'write-load'))
+        tags.append('md-values:%s' % ('numpy scalars' if case.get('np_md') else 'python'))
         tags.append('theorem-domain:%s' % ('inside' if U.in_domain(case) else 'outside'))
     return tags
 
@@ -267,6 +318,10 @@ def shrink(case):
         yield with_spec(layout=['dense'])
     if any(len(i) > 2 or ord(max(i)) > 127 for i in s['oids'] + s['sids'] if i):
         yield with_spec(oids=['o%d' % i for i in range(r)], sids=['s%d' % j for j in range(c)])
+    if case.get('np_md'):
+        yield {k: v for k, v in case.items() if k != 'np_md'}
+    if case.get('gen2'):
+        yield {k: v for k, v in case.items() if k != 'gen2'}
     if case.get('compress'):
         yield dict(case, compress=False)
     if case.get('writer') != 'to_hdf5':
